@@ -419,6 +419,44 @@ pub fn run(tier: Tier) -> Run {
             pair_count += o.trim_start_matches("pairs:").parse::<u64>().unwrap_or(0);
         }
     }
+    // ---- long-range relations: (a) every SHAPE (every enumerant, every parameter) of every module-level opcode in front
+    //      of a complete function with a body, all ids collapsed onto {1, 2} so that every id equality holds (a
+    //      decoration whose target is the function, an entry point naming it, ..); (b) every capability enumerant in front
+    //      of every opcode inside a block
+    let longrange: Vec<Step> = {
+        let mut seqs: Vec<Vec<Inst>> = vec![];
+        let collapse = |i: &Inst| model::remap_ids(i, &|x| 1 + x % 2);
+        for gi in &g.insts {
+            if !matches!(class_of(&gi.name), Class::Module(_)) || placement_dont_care(&gi.name) {
+                continue;
+            }
+            for sh in universe::shapes(gi, Tier::Quick) {
+                if sh.id.contains(":id=") || sh.id.contains(":lit=") || sh.id.contains(":str=") {
+                    continue;
+                }
+                let mut h = vec![collapse(&sh.inst)];
+                for (k, n) in ["Function", "Label", "Return", "FunctionEnd"].iter().enumerate() {
+                    h.push(collapse(&rep_inst(n, k + 1)));
+                }
+                seqs.push(h);
+            }
+        }
+        let caps: Vec<u32> = g.enums["Capability"].declared().into_iter().collect();
+        for c in caps {
+            for gi in &g.insts {
+                if placement_dont_care(&gi.name) {
+                    continue;
+                }
+                let mut x = universe::minimal(gi);
+                if x.rid.is_some() {
+                    x.rid = Some(900);
+                }
+                seqs.push(vec![Inst::new("Capability", None, None, vec![crate::model::Arg::Enum("Capability", c)]), rep_inst("Function", 1), rep_inst("Label", 2), x]);
+            }
+        }
+        seqs.par_iter().map(|h| run_seq(h, false)).collect()
+    };
+    let longrange_n = longrange.len() as u64;
     // ---- every one of the 787 opcodes substituted for its class in each of the three loader states
     let prefixes: [Vec<&str>; 3] = [vec![], vec!["Function"], vec!["Function", "Label"]];
     let subs: Vec<Step> = g
@@ -465,7 +503,11 @@ pub fn run(tier: Tier) -> Run {
         run.add_all(st.viols);
     }
     run.outcome("adjacent_opcode_pairs", pair_count);
-    let sub_n = sub_n + pair_count;
+    for st in longrange {
+        run.add_all(st.viols);
+    }
+    run.outcome("long_range_sequences", longrange_n);
+    let sub_n = sub_n + pair_count + longrange_n;
     run.set("states", json!(b.states));
     run.set("transitions", json!(a.transitions + b.transitions + sub_n));
     run.set("traces_validated_against_impl", json!(a.histories_replayed + b.histories_replayed + sub_n));
